@@ -44,7 +44,14 @@ def scanner_girs(rng, n_each):
         out.append(('annotated callables #%d' % b, r.xml, ['GLib', 'GObject', 'Gio']))
     for b in range(n_each):
         w = c12.gen_world(rng)
-        r = S.run(c12.symbols(w, S), includes=['GLib', 'GObject', 'Gio'], dump=ET.ElementTree(ET.fromstring(c12.dump_xml(w))), warnings=False)
+        # some of the properties carry a block of their own with a (transfer ...) annotation, floating included
+        pcomments = []
+        for d_ in w['dump']:
+            for p_ in d_.get('props', []):
+                if rng.random() < 0.5:
+                    pcomments.append(('/**\n * %s:%s: (transfer %s)\n *\n * A property.\n */' % (d_['name'], p_['name'],
+                                      rng.choice(['none', 'full', 'floating', 'container', 'floating'])), '/src/foo.c', 1000 + 10 * len(pcomments)))
+        r = S.run(c12.symbols(w, S), comments=pcomments, includes=['GLib', 'GObject', 'Gio'], dump=ET.ElementTree(ET.fromstring(c12.dump_xml(w))), warnings=False)
         out.append(('runtime dump world #%d' % b, r.xml, ['GLib', 'GObject', 'Gio']))
     for b in range(n_each):
         out.append(('structure and virtual-method world #%d' % b, vfunc_world(rng, S, ET), ['GLib', 'GObject', 'Gio']))
@@ -66,6 +73,7 @@ def scanner_girs(rng, n_each):
     for b in range(n_each):
         out.append(('constants and members world #%d' % b, misc_world(rng, S, c07), ['GLib', 'GObject']))
         out.append(('structure members world #%d' % b, c07.field_world(rng, S, ET), ['GLib', 'GObject']))
+        out.append(('registered types world #%d' % b, c07.registered_world(rng, S, ET), ['GLib', 'GObject']))
     return out
 
 
@@ -304,14 +312,20 @@ def main(tier, seed):
         except (Exception, SystemExit) as e:      # noqa
             ck.tie_broken('correspondence', 'the scanner fails on a generated world: %r' % (e,))
             girs = []
-        for what, xml, incs, nsv in girs + shipped:
+        for gi_, (what, xml, incs, nsv) in enumerate(girs + shipped):
             work = os.path.join(tmp, 'w')
             shutil.rmtree(work, ignore_errors=True)
             os.mkdir(work)
             gir = os.path.join(work, nsv + '.gir')
             tl = os.path.join(tmp, nsv + '.typelib')
             open(gir, 'w', encoding='utf-8').write(xml)
-            p = subprocess.run([compiler, '--includedir', inc, gir, '-o', tl], capture_output=True, text=True, timeout=300)
+            if gi_ % 3 == 1:
+                # the dependencies are found through GI_GIR_PATH, as the scanner found them: the variable extended from an unset one
+                # (leading separator), with an empty element in the middle, or plain
+                env_ = dict(os.environ, GI_GIR_PATH=[os.pathsep + inc, os.path.join(tmp, 'nowhere') + os.pathsep + os.pathsep + inc, inc][(gi_ // 3) % 3])
+                p = subprocess.run([compiler, gir, '-o', tl], capture_output=True, text=True, timeout=300, env=env_)
+            else:
+                p = subprocess.run([compiler, '--includedir', inc, gir, '-o', tl], capture_output=True, text=True, timeout=300)
             root = ET.fromstring(xml)
             if what.startswith('shipped') and p.returncode != 0 and re.search(r"Can't resolve type '(GLib|GObject|Gio|cairo)\.", p.stdout + p.stderr):
                 # an include that the stub GIRs do not satisfy: outside the property's quantifier
